@@ -289,6 +289,26 @@ func (r *Runner) runReal(st Step, id int64) *RealResult {
 	runNoExec := func() error { _, err := fn(nil); return err }
 	runExec := func(e failsafe.Execution[int]) error { _, err := fn(e); return err }
 	getNoExec := func() (int, error) { return fn(nil) }
+	if st.TopLevel {
+		pols := make([]failsafe.Policy[int], len(r.Sc.Stack))
+		for i, p := range r.Sc.Stack {
+			pols[i] = w.Insts[p].Pol
+		}
+		switch entry {
+		case 2:
+			real.Val, real.Err = failsafe.Get(getNoExec, pols...)
+		case 3:
+			real.Val, real.Err = failsafe.GetWithExecution(fn, pols...)
+		case 6:
+			real.Val, real.Err = failsafe.GetAsync(getNoExec, pols...).Get()
+		case 7:
+			real.Val, real.Err = failsafe.GetWithExecutionAsync(fn, pols...).Get()
+		default:
+			panic("package-level entry points are generated for the Get variants only")
+		}
+		cancel()
+		return real
+	}
 	switch entry {
 	case 0:
 		real.Err = ex.Run(runNoExec)
@@ -337,6 +357,16 @@ func (r *Runner) compareExec(st Step, pred *Prediction, real *RealResult, id int
 	}
 	if real.Val != wantVal || !SameErr(real.Err, pred.Err) {
 		bad("outcome", "returned (%d, %s), model (%d, %s)", real.Val, describeErr(real.Err), wantVal, describeErr(pred.Err))
+	}
+	if st.TopLevel {
+		// no Executor, hence no completion listeners
+		var m2 []Entry
+		for _, e := range pred.Log {
+			if e.Pol != PolExecutor {
+				m2 = append(m2, e)
+			}
+		}
+		pred.Log = m2
 	}
 	r.compareLogs(pred.Log, real.Log, id, res)
 	// cache traffic
